@@ -616,6 +616,8 @@ class AbsInt:
             if key is not None:
                 return s.get(key)
             return self._const_read(e, s) if self.consts else None
+        if k == 'assign':
+            return self.ev(e.get('l'), s)       # `(v = e) != NULL`: the store was emitted as an earlier event
         if k == 'incdec':
             v = self.ev(e.get('e'), s)          # the side effect was emitted as an earlier store event
             if e.get('prefix'):
